@@ -233,12 +233,13 @@ func main() {
 		}
 		scs = append(scs, scenario(cfg{Total: l[0], Endpoint: l[1], Paths: "ppq", Preempt: ev.Pick(r, 2, 3)}))
 		four := []string{"pppp"}
-		if li < 3 || r.Thorough() {
+		if li < 3 || (r.Thorough() && li < 6) {
 			four = ev.Pick(r, []string{"pppp", "ppqq"}, []string{"pppp", "ppqq", "pqpp"})
 		}
 		for _, p := range four {
 			scs = append(scs, scenario(cfg{Total: l[0], Endpoint: l[1], Paths: p}))
-			if r.Thorough() {
+			if r.Thorough() && li < 6 {
+				// (the burst variants of the 4-request orders are ~20 M executions per setting: the six original settings only)
 				scs = append(scs, scenario(cfg{Total: l[0], Endpoint: l[1], Paths: p, Burst: true, Preempt: 0}))
 			}
 		}
